@@ -31,12 +31,28 @@ type BinaryDecoder interface {
 	Decode([]byte) (int, error)
 }
 
-func Decode(b []byte, v interface{}) (int, error) {
-	val := reflect.ValueOf(v)
-	return decode(b, val, val.Type().String())
+// MaxNestingLevel is the number of Variant, DataValue, DiagnosticInfo
+// and ExtensionObject values which can be nested in each other. Decoding
+// a value which is nested deeper fails with StatusBadEncodingLimitsExceeded
+// since the depth of the recursion and the memory for the decoded value
+// are otherwise only limited by the size of the message.
+//
+// Specification: Part 6, 5.1.5 and 5.2.2.16
+var MaxNestingLevel = 100
+
+// nestedDecoder is implemented by the types whose encoding can contain
+// another value of the same kind. level is the number of such values
+// the decoded value is nested in.
+type nestedDecoder interface {
+	decodeNested(b []byte, level int) (int, error)
 }
 
-func decode(b []byte, val reflect.Value, name string) (n int, err error) {
+func Decode(b []byte, v interface{}) (int, error) {
+	val := reflect.ValueOf(v)
+	return decode(b, val, val.Type().String(), 0)
+}
+
+func decode(b []byte, val reflect.Value, name string, level int) (n int, err error) {
 	if debugCodec {
 		fmt.Printf("decode: %s has type %v and is a %s, %d bytes\n", name, val.Type(), val.Type().Kind(), len(b))
 		defer func() {
@@ -47,6 +63,9 @@ func decode(b []byte, val reflect.Value, name string) (n int, err error) {
 	buf := NewBuffer(b)
 	switch {
 	case isBinaryDecoder(val):
+		if v, ok := val.Interface().(nestedDecoder); ok {
+			return v.decodeNested(b, level)
+		}
 		v := val.Interface().(BinaryDecoder)
 		return v.Decode(b)
 	case isTime(val):
@@ -79,13 +98,13 @@ func decode(b []byte, val reflect.Value, name string) (n int, err error) {
 		case reflect.String:
 			val.SetString(buf.ReadString())
 		case reflect.Slice:
-			return decodeSlice(b, val, name)
+			return decodeSlice(b, val, name, level)
 		case reflect.Array:
-			return decodeArray(b, val, name)
+			return decodeArray(b, val, name, level)
 		case reflect.Ptr:
-			return decode(b, val.Elem(), name)
+			return decode(b, val.Elem(), name, level)
 		case reflect.Struct:
-			return decodeStruct(b, val, name)
+			return decodeStruct(b, val, name, level)
 		default:
 			return 0, errors.Errorf("unsupported type %s", val.Type())
 		}
@@ -93,7 +112,7 @@ func decode(b []byte, val reflect.Value, name string) (n int, err error) {
 	return buf.Pos(), buf.Error()
 }
 
-func decodeStruct(b []byte, val reflect.Value, name string) (int, error) {
+func decodeStruct(b []byte, val reflect.Value, name string, level int) (int, error) {
 	pos := 0
 	valt := val.Type()
 	for i := 0; i < val.NumField(); i++ {
@@ -108,7 +127,7 @@ func decodeStruct(b []byte, val reflect.Value, name string) (int, error) {
 			// fmt.Printf("decode: %s has type %v and has new value %#v\n", fname, f.Type(), f.Interface())
 		}
 
-		n, err := decode(b[pos:], f, fname)
+		n, err := decode(b[pos:], f, fname, level)
 		if err != nil {
 			return pos, err
 		}
@@ -117,7 +136,7 @@ func decodeStruct(b []byte, val reflect.Value, name string) (int, error) {
 	return pos, nil
 }
 
-func decodeSlice(b []byte, val reflect.Value, name string) (int, error) {
+func decodeSlice(b []byte, val reflect.Value, name string, level int) (int, error) {
 	buf := NewBuffer(b)
 	n := buf.ReadUint32()
 	if buf.Error() != nil {
@@ -162,7 +181,7 @@ func decodeSlice(b []byte, val reflect.Value, name string) (int, error) {
 		}
 
 		ename := fmt.Sprintf("%s[%d]", name, i)
-		m, err := decode(b[pos:], a.Index(i), ename)
+		m, err := decode(b[pos:], a.Index(i), ename, level)
 		if err != nil {
 			return pos, err
 		}
@@ -173,7 +192,7 @@ func decodeSlice(b []byte, val reflect.Value, name string) (int, error) {
 	return pos, nil
 }
 
-func decodeArray(b []byte, val reflect.Value, name string) (int, error) {
+func decodeArray(b []byte, val reflect.Value, name string, level int) (int, error) {
 	buf := NewBuffer(b)
 	n := buf.ReadUint32()
 	if buf.Error() != nil {
@@ -216,7 +235,7 @@ func decodeArray(b []byte, val reflect.Value, name string) (int, error) {
 		}
 
 		ename := fmt.Sprintf("%s[%d]", name, i)
-		m, err := decode(b[pos:], a.Index(i), ename)
+		m, err := decode(b[pos:], a.Index(i), ename, level)
 		if err != nil {
 			return pos, err
 		}
